@@ -246,6 +246,7 @@ static void c11_gen(plan_t *p, rng_t *r, int tier) {
 	}
 	if (skip && rng_chance(r, 700)) { op = plan_add_op(p, "attach"); item_set(&op->it, "actor", 0); item_set(&p->cfg, "attdestroy", rng_chance(r, 500)); }
 	item_set(&p->cfg, "waitstart", rng_chance(r, 400));
+	item_set(&p->cfg, "fd0", rng_chance(r, 80));
 	if (rng_chance(r, 60)) item_set(&p->cfg, "hookshut", 1 + (long long)rng_below(r, (uint64_t)n + 1));
 	int first_traffic = p->nops;
 	{
@@ -375,6 +376,11 @@ static void *c11_root(void *arg) {
 	if (0 == pipe2(C.bystander, O_NONBLOCK | O_CLOEXEC)) { sim_fd_note_harness(C.bystander[0]); sim_fd_note_harness(C.bystander[1]); }
 	C.fibers_before = sim_pool_fibers_created();
 	if (hooks && p->ops[create_op].nfaults == 0) { int hs = (int)item_get(&p->cfg, "hookshut", 0); W.hook_shutdown_idx1 = (hs > n + 1) ? n + 1 : hs; }
+	if (item_get(&p->cfg, "fd0", 0)) {
+		/* a process without stdin (daemons close 0, 1, 2): the first descriptor the pool opens gets number 0 */
+		close(0);
+		sim_probe("c11.descriptor_0_free_at_create");
+	}
 again:
 	sim_set_op(tries == 0 ? create_op : -2);
 	{
